@@ -277,10 +277,22 @@ pub fn check_request(world: &World, q: &ReqSpec) -> Result<bool, String> {
         if j2 != j {
             return Err(format!("request: ser(de(ser(q))) != ser(q):\n  {j}\n  {j2}"));
         }
-        let before = ids_of(&router.match_request(&request));
+        let matched = router.match_request(&request);
+        let before = ids_of(&matched);
         let after = ids_of(&router.match_request(&restored));
         if before != after {
             return Err(format!("request restored from JSON matches {after:?}, original matched {before:?}; json {j}"));
+        }
+        if normalised_first && !matched.is_empty() {
+            // the agent -> proxy hand-off of this very exchange: the action built for the original request and the
+            // one built for the restored request are the same action, and it survives its own round trip
+            let a = Action::from_routes_rule(matched, &request, None);
+            let b = Action::from_routes_rule(router.match_request(&restored), &restored, None);
+            let (ja, jb) = (serde_json::to_string(&a).unwrap_or_default(), serde_json::to_string(&b).unwrap_or_default());
+            if ja != jb {
+                return Err(format!("the action built for the restored request differs from the one built for the original request:\n  {ja}\n  {jb}"));
+            }
+            check_built_action(a).map_err(|m| format!("action of the matched rules: {m}"))?;
         }
         let before_n = ids_of(&router.match_request(&Request::rebuild_with_config(&config, &request)));
         let after_n = ids_of(&router.match_request(&Request::rebuild_with_config(&config, &restored)));
@@ -367,6 +379,8 @@ pub fn run(ctx: &Ctx, _args: &Args) -> i32 {
     let n_worlds: u64 = ctx.tier.pick(8_000, 200_000);
     let overrides: &[Option<bool>] = &[None, Some(true), Some(false)];
 
+    let fixtures = crate::fixtures::load();
+    let fixture_requests: Vec<ReqSpec> = fixtures.iter().flat_map(|f| f.requests.iter().cloned()).collect();
     let report = run_sharded(jobs, |shard, report| {
         let mut rng = Rng::stream(ctx.seed, shard as u64);
         for _ in 0..(n_actions / jobs as u64) {
@@ -399,12 +413,28 @@ pub fn run(ctx: &Ctx, _args: &Args) -> i32 {
                 record(&Case::Request { world: world.clone(), request: q }, report);
             }
         }
+        // the repository's own fixture rule sets with their requests (markers, variables, transformers, filters
+        // as real projects write them)
+        for (i, fx) in fixtures.iter().enumerate() {
+            if i % jobs != shard {
+                continue;
+            }
+            let mut probes = fx.requests.clone();
+            for _ in 0..6 {
+                probes.push(rng.pick(&fixture_requests).clone());
+            }
+            for mut q in probes {
+                q.sampling_override = *rng.pick(overrides);
+                record(&Case::Request { world: fx.world.clone(), request: q }, report);
+                report.count("fixture_requests_round_tripped");
+            }
+        }
     });
 
     finish(
         ctx,
         report,
-        "actions built by Action::from_routes_rule from the C05 effect grid (fallback status, both body-filter variants of the untagged union, optional ids, log override with fallback, empty action) and from rules with hostile effect values (empty, non-ASCII, control and NUL characters, long strings, present/absent/null optional fields, odd selectors and element paths, status 0/65535), observed with the C05 protocol at 6 codes before and after serde_json and C-entry-point round trips; requests from the C01 generator (+ marketing parameters, upper-case and non-ASCII URLs, IPv6, sub-second timestamps, sampling override) matched before/after the round trip, raw and normalised. non-trivial = distinct serialised action with a status update or at least one filter",
+        "actions built by Action::from_routes_rule from the C05 effect grid (fallback status, both body-filter variants of the untagged union, optional ids, log override with fallback, empty action) and from rules with hostile effect values (empty, non-ASCII, control and NUL characters, long strings, present/absent/null optional fields, odd selectors and element paths, status 0/65535), observed with the C05 protocol at 6 codes before and after serde_json and C-entry-point round trips; requests from the C01 generator and from the repository's fixture worlds, incl. the action of the matched rules built before and after the request's round trip (+ marketing parameters, upper-case and non-ASCII URLs, IPv6, sub-second timestamps, sampling override) matched before/after the round trip, raw and normalised. non-trivial = distinct serialised action with a status update or at least one filter",
         &["serde_json", "wasm bindings are not compiled on this target (not claimed)"],
         started,
         200,
